@@ -445,7 +445,19 @@ impl PathRouter {
         }
 
         for (path, routes) in path2method2component_id.into_iter() {
-            for method in METHODS {
+            // The well-known methods, plus every custom method that a handler
+            // registered against this path asked for.
+            let mut methods: Vec<&str> = METHODS.to_vec();
+            for (guard, _) in &routes {
+                if let MethodGuard::Some(method_guards) = guard {
+                    for method in method_guards.iter() {
+                        if !methods.contains(&method.as_str()) {
+                            methods.push(method.as_str());
+                        }
+                    }
+                }
+            }
+            for method in methods {
                 let mut relevant_handler_ids = IndexSet::new();
                 for &(guard, &id) in &routes {
                     match guard {
